@@ -5,11 +5,8 @@ mod astsexp;
 mod devtools;
 mod exec;
 mod progen;
-<<<<<<< HEAD
 mod progen_c17;
-=======
 mod progen_c05;
->>>>>>> c05
 mod model;
 mod props;
 mod report;
